@@ -76,8 +76,8 @@ impl<const N: usize> Ex<N> {
         out.nontrivial = true;
         out.may_alloc = true;
         let k = st.vals.len();
-        out.argclass = if k < N { 0 } else if k == N { 1 } else { 2 } + 3 * (st.b as u64 % 5);
-        let it = SrcIter::new(&st.vals, [0, 1, 2, 3, 4][st.b % 5]);
+        out.argclass = if k < N { 0 } else if k == N { 1 } else { 2 } + 3 * (st.b as u64 % 6);
+        let it = SrcIter::new(&st.vals, [0, 1, 2, 3, 4, 5][st.b % 6]);
         let made = it.made.clone();
         let r = window(move || it.collect::<Buf<N>>());
         self.allocs += crate::alloc::take_op_allocs();
@@ -125,6 +125,44 @@ impl<const N: usize> Ex<N> {
             self.bufs[y] = Some(by);
             if ok {
                 self.models[y].clear();
+            }
+        }
+        if ok && self.fail.is_none() && self.faulted.is_none() {
+            // the same for an element type WITHOUT drop glue whose Clone is observable: every
+            // element of the copy must be the result of one T::clone call (not a bit copy)
+            use crate::elem::{NoDrop, NODROP_CLONES};
+            let (start, _) = self.bufs[x].as_ref().unwrap().verif_layout();
+            let mut nb: CircularBuffer<N, NoDrop> = CircularBuffer::new();
+            if N > 0 {
+                for _ in 0..start % N {
+                    nb.push_back(NoDrop { val: 0, gen: 0 });
+                    nb.pop_front();
+                }
+            }
+            for (_, v) in src.iter() {
+                nb.push_back(NoDrop { val: *v, gen: 0 });
+            }
+            NODROP_CLONES.with(|c| c.set(0));
+            let nbr = &nb;
+            let from = st.op == Op::CloneFrom;
+            let r = window(move || {
+                if from {
+                    let mut d: CircularBuffer<N, NoDrop> = CircularBuffer::new();
+                    d.push_back(NoDrop { val: 9, gen: 9 });
+                    d.clone_from(nbr);
+                    d
+                } else {
+                    nbr.clone()
+                }
+            });
+            self.allocs += crate::alloc::take_op_allocs();
+            if let Some(c) = self.settle(r, false, out.own) {
+                let calls = NODROP_CLONES.with(|c| c.get());
+                let got: Vec<(u32, u32)> = c.iter().map(|e| (e.val, e.gen)).collect();
+                let want: Vec<(u32, u32)> = src.iter().map(|(_, v)| (*v, 1)).collect();
+                if got != want || calls != src.len() as u64 {
+                    self.fail(out.own | cls::CONTENTS, format!("{} of a buffer of elements without drop glue: copy holds (val, generation) {got:?} after {calls} T::clone calls, expected {want:?} (one clone per element)", st.op.name()));
+                }
             }
         }
         if ok && self.fail.is_none() {
@@ -425,14 +463,16 @@ impl<const N: usize> Ex<N> {
             let ne = **a != **tr;
             let pc = (**a).partial_cmp(&**tr);
             let pc2 = (**tr).partial_cmp(&**a);
+            // the four comparison operators (provided by PartialOrd, may be overridden)
+            let ops = [**a < **tr, **a <= **tr, **a > **tr, **a >= **tr];
             let mut ha = RecHasher::new();
             let mut hb = RecHasher::new();
             a.hash(&mut ha);
             tr.hash(&mut hb);
-            (eq1, eq2, ne, pc, pc2, ha.finish(), hb.finish(), self_eq)
+            (eq1, eq2, ne, pc, pc2, ha.finish(), hb.finish(), self_eq, ops)
         });
         self.allocs += crate::alloc::take_op_allocs();
-        if let Some((eq1, eq2, ne, pc, pc2, ha, hb, self_eq)) = self.settle(r, false, own) {
+        if let Some((eq1, eq2, ne, pc, pc2, ha, hb, self_eq, ops)) = self.settle(r, false, own) {
             let _ = write!(self.trace.line(), " r={}{}{}{:?}", eq1 as u8, eq2 as u8, ne as u8, pc);
             if self_eq == a_has_nan {
                 self.fail(own, format!("buffer {va:?} compared with itself: == gave {self_eq} (element-wise equality; the NaN-like value {} is not equal to itself)", crate::elem::NAN_VAL));
@@ -440,6 +480,15 @@ impl<const N: usize> Ex<N> {
                 self.fail(own, format!("capacity {N} buffer {va:?} vs capacity {M} buffer {vs:?}: a==b {eq1}, b==a {eq2}, a!=b {ne}"));
             } else if pc != want_partial || pc2 != want_partial.map(|o| o.reverse()) {
                 self.fail(own, format!("partial_cmp of {va:?} vs {vs:?} (capacities {N}, {M}) = {pc:?} / reversed {pc2:?}"));
+            } else if ops
+                != [
+                    want_partial == Some(Ordering::Less),
+                    matches!(want_partial, Some(Ordering::Less | Ordering::Equal)),
+                    want_partial == Some(Ordering::Greater),
+                    matches!(want_partial, Some(Ordering::Greater | Ordering::Equal)),
+                ]
+            {
+                self.fail(own, format!("{va:?} vs {vs:?} (capacities {N}, {M}): operators <, <=, >, >= gave {ops:?} but partial_cmp of the sequences is {want_partial:?}"));
             } else if want_eq && M == N && ha != hb {
                 self.fail(own, format!("equal buffers {va:?} of the same capacity hash differently (layouts differ)"));
             }
